@@ -644,8 +644,8 @@ func ruleC02Escape(c *ctx.Ctx, r *core.Reporter) {
 		r.Undecided("bottom:arms", c.Pos(v.Pos()), fmt.Sprintf("expected bottom scopes for FuncLit, ForStmt and RangeStmt; found %v", keys))
 	}
 	// address-of identifiers and function literals start a collector
-	src := squash(nodeString(c, v.Body))
-	r.Check(strings.Contains(src, "ifn.Op==token.AND{if_,ok:=n.X.(*ast.Ident);ok{return&escapingObjectCollector{v}}}"), "collect:address-of", c.Pos(v.Pos()), "taking the address of a variable marks it as escaping")
+	_ = squash
+	r.Check(hasGoPattern(v.Body, `if µn.Op == token.AND { if _, µok := astutil.RemoveParens(µn.X).(*ast.Ident); µok { return &escapingObjectCollector{µv} } }`), "collect:address-of", c.Pos(v.Pos()), "taking the address of a variable — &x as well as &(x), which the translator treats alike — marks it as escaping")
 	if arm := armOf(v, "*ast.FuncLit"); arm != nil {
 		r.Check(strings.Contains(nodeString(c, arm), "return &escapingObjectCollector{v}"), "collect:closure", c.Pos(arm.Pos()), "every variable referenced inside a function literal is examined")
 	}
